@@ -57,8 +57,13 @@ def replay_init(args):
             variants.append(("infeasible", xo, U0))
         # the specification is in units of rhobeg: the same configuration at a larger unit (rhobeg = 7.8 > 1; every threshold of the code scales with it)
         variants.append(("feasible_large_unit", x0.copy(), 8 * U0))
+        # ... and the same configuration around a base point of magnitude 2^20 (every threshold of the code is relative to rhobeg, none to |x0|;
+        # 2^20 + k*2^-10 is still exact in binary64)
+        variants.append(("feasible_far_base", x0 + 2.0 ** 20, U0))
         A = rng.normal(size=(n + 1, n))
+        x0_first = x0
         for vname, xstart, U in variants:
+            x0 = xstart.copy() if vname == "feasible_far_base" else x0_first
             lo = np.array([x0[i] + box[i][0] * U if box[i][0] > -BIG else -np.inf for i in range(n)])
             hi = np.array([x0[i] + box[i][1] * U if box[i][1] < BIG else np.inf for i in range(n)])
             calls = []
